@@ -151,6 +151,10 @@ func (c *channel) enqueue(req request, responseChan chan<- response, streaming b
 	case <-c.parentCtx.Done():
 		c.routeResponse(req.msg.Metadata.MessageID, response{nid: c.node.ID(), err: fmt.Errorf("channel closed")})
 		return
+	case <-req.ctx.Done():
+		// don't keep the caller waiting for a busy sender once its context has ended
+		c.routeResponse(req.msg.Metadata.MessageID, response{nid: c.node.ID(), err: req.ctx.Err()})
+		return
 	case c.sendQ <- req:
 	}
 }
@@ -217,6 +221,10 @@ func (c *channel) sendMsg(req request) (err error) {
 	if err != nil {
 		c.setLastErr(err)
 		c.streamBroken.set()
+		if ctxErr := req.ctx.Err(); ctxErr != nil {
+			// the write failed because the request's context ended; report that
+			err = ctxErr
+		}
 	}
 
 	close(done)
